@@ -3,7 +3,7 @@ use crate::error::{format_bytes, Result, SyncError};
 use crate::fs_util::{has_hard_links, same_filesystem, supports_cow_reflinks};
 use crate::integrity::{ChecksumType, IntegrityVerifier};
 use crate::sync::scanner::{FileEntry, Scanner};
-use crate::temp_file::TempFileGuard;
+use crate::temp_file::{working_file_path, TempFileGuard};
 use async_trait::async_trait;
 use std::fs::{self, File};
 use std::path::Path;
@@ -571,16 +571,7 @@ impl Transport for LocalTransport {
 
             // Strategy 1: COW clone + selective writes (fast on APFS/BTRFS/XFS)
             // Strategy 2: In-place delta (for ext4, hard links, cross-filesystem)
-            // Append to the full file name (with_extension would map `a.bin` and
-            // `a.dat` to the same `a.sy.tmp`)
-            let temp_dest = {
-                let mut name = dest
-                    .file_name()
-                    .map(|n| n.to_os_string())
-                    .unwrap_or_default();
-                name.push(".sy.tmp");
-                dest.with_file_name(name)
-            };
+            let temp_dest = working_file_path(&dest);
             let temp_guard = TempFileGuard::new(&temp_dest);
 
             let (bytes_written, literal_bytes, changed_blocks) = if use_cow_strategy {
